@@ -1,7 +1,9 @@
 # -*- coding: utf-8 -*-
 """Check context: tier/seed, scratch directory, violations, known findings, evidence."""
 
+import contextlib
 import importlib
+import signal
 import json
 import os
 import random
@@ -33,6 +35,10 @@ def import_repo():
     got = Path(phylib.__file__).resolve().parent.parent
     if got != REPO.resolve():
         raise MachineryError('phylib imported from %s, not from %s' % (got, REPO))
+
+
+class CodeTimeout(BaseException):
+    pass
 
 
 class Violation(object):
@@ -69,6 +75,7 @@ class Context(object):
         self.exhaustive = True
         self.rng = random.Random(seed)
         self._max_viol = 25
+        self.abort = False       # set after a non-terminating call or > 100 violations: stop exploring
 
     # -- TLC phases -----------------------------------------------------------------------
     def model_check(self, module, cfg, note='', **kw):
@@ -108,6 +115,8 @@ class Context(object):
 
     # -- bookkeeping ----------------------------------------------------------------------
     def violation(self, key, message, case=None):
+        if len(self.violations) >= 100:
+            self.abort = True
         if len(self.violations) < self._max_viol or not any(
                 v.key == key for v in self.violations):
             self.violations.append(Violation(key, message, case))
@@ -120,6 +129,31 @@ class Context(object):
 
     def part(self, **kw):
         self.parts.append(kw)
+
+    @contextlib.contextmanager
+    def guard(self, key, case=None, seconds=30):
+        """Run code under test under a wall-clock limit: a call that does not return is a
+        violation (every property implies its calls terminate), not a hang of the check."""
+        def handler(signum, frame):
+            raise CodeTimeout()
+        old = signal.signal(signal.SIGALRM, handler)
+        signal.setitimer(signal.ITIMER_REAL, seconds)
+        try:
+            yield
+        except CodeTimeout:
+            self.violation(key, 'the code under test did not return within %ds' % seconds,
+                           dict(case=case, nontermination=True))
+            self.abort = True
+        except MachineryError:
+            raise
+        except Exception as e:
+            # an exception escaping from the code under test on an input inside the property's
+            # domain is a violation (the statement says what the call returns)
+            self.violation(key, 'the code under test raised %s: %s' % (type(e).__name__, e),
+                           dict(case=case, raised=traceback.format_exc()[-1500:]))
+        finally:
+            signal.setitimer(signal.ITIMER_REAL, 0)
+            signal.signal(signal.SIGALRM, old)
 
     def cleanup(self):
         shutil.rmtree(self.work, ignore_errors=True)
